@@ -322,6 +322,7 @@ WAVE5 = {'C01': 'Wave 5: runs in other environments (python -O, PYTHONOPTIMIZE=2
 WAVE6 = {'C01': 'Wave 6: variable names that begin with or extend names the units library knows.', 'C03': 'Wave 6: boxes of 2^-26 kpc, 2^-30 m and 2^30 pc (nothing is close to zero on an absolute scale).', 'C04': 'Wave 6: layer 2 at levelmax 14 with domains that are slivers of 64-32768 keys next to the first key of a level-3 search cube.', 'C05': 'Wave 6: data moved by 2^45 or scaled by 2^-30 (a range is degenerate only if its limits are equal).', 'C07': 'Wave 6: the numpy-function spelling (np.less ...) of every comparison.', 'C09': 'Wave 6: Vectors whose second and third components were attached after construction.', 'C10': 'Wave 6: a 0-d Array as the unit-carrying operand.', 'C11': 'Wave 6: slab thickness of very small numerical magnitude in its own unit.', 'C12': 'Wave 6: other groups named before/after mesh in the select dictionary.', 'C13': 'Wave 6: descriptors in which one name is the beginning of another.', 'C14': 'Wave 6: sink unit-line entries that are general expressions in m, l, t.', 'C15': 'Wave 6: name lists that only one reader of the group can satisfy; gravity files present.', 'C16': 'Wave 6: a group whose own positions are in another unit than those of the groups before it.', 'C17': 'Wave 6: in-place updates of 0-d and 1-element Arrays held by two groups.', 'C18': 'Wave 6: the configuration moved 2^40 away from the coordinate origin.', 'C19': 'Wave 6: matplotlib norm objects at layer and call level in unrendered calls.', 'C20': 'Wave 6: pairs handed to update() and the constructor as list, zip, generator and items view.'}
 
 
+WAVE12 = {'C04': 'Wave 12: the public-API layer repeated in an environment whose user configuration writes the mesh coordinates in au; the internal seam follows its signature.', 'C05': 'Wave 12: a multi-layer call refused at its second layer, then the same call done right.', 'C11': 'Wave 12: the reduction chosen on the layer and not repeated in the call.', 'C12': 'Wave 12: a level criterion next to a lower bound on dx.', 'C13': 'Wave 12: a reduced selection list repeated under python -O and PYTHONOPTIMIZE=2.', 'C14': 'Wave 12: an environment whose unit library is a defaultdict with wildcard entries.', 'C16': 'Wave 12: shallow copies of a dataset whose mesh is then replaced.'}
 WAVE11 = {'C02': 'Wave 11: in-place updates that numpy itself refuses leave the operand as it was.', 'C05': 'Wave 11: a reduced case list with the JIT switched off (NUMBA_DISABLE_JIT=1) and under -O.', 'C06': 'Wave 11: members that are pure numbers with a scale (degrees, percent).', 'C07': 'Wave 11: every comparison repeated after a refused operation in the same process.', 'C09': 'Wave 11: Vectors in percent and cm/m next to bare numbers.', 'C10': 'Wave 11: an environment whose user configuration defines constants under short names with its own values.', 'C12': 'Wave 11: the same select dictionary, corrected, after a load that was refused part-way.', 'C13': 'Wave 11: a group left out as a whole is absent, not empty.', 'C14': 'Wave 11: integer and byte particle records under names whose unit has a scale.', 'C15': 'Wave 11: environment variables the library reads are discovered and each is set for a reduced exploration.', 'C16': 'Wave 11: sizes and radii in compound unit strings.', 'C20': 'Wave 11: the container explorations repeated under python -O and PYTHONOPTIMIZE=2.'}
 WAVE10 = {'C01': 'Wave 10: output number -1 in a run directory that receives new outputs between loads of one process.', 'C03': 'Wave 10: float layers (scalar, vector) after integer or float32 layers in one call.', 'C04': 'Wave 10: one region object (bound methods, closure) moved between loads; a cross-run group on which the pre-selection prunes.', 'C08': 'Wave 10: Vectors whose components are rows of one array in another order, reversed or strided views, rearranged components of a converted Vector.', 'C09': 'Wave 10: components attached one at a time out of the order x, y, z, or replaced.', 'C11': 'Wave 10: the same Layer object handed to a sequence of maps with different operations.', 'C12': 'Wave 10: one level function object across loads, the levels it accepts changed in between.', 'C14': 'Wave 10: violations found in an environment run carry the run as their history.', 'C18': "Wave 10: 'top' / 'side' on 65536 to 150001 cells (exact integer sums).", 'C19': 'Wave 10: layers that set every option themselves; the snapshot follows attribute objects of a layer.'}
 WAVE9 = {'C05': 'Wave 9: layers carrying 1-d histogram options (weights, bins) and the same options given to the call.', 'C07': 'Wave 9: the unit-less operand on either side, through the operator and the numpy function, with boolean operands (masks).', 'C10': 'Wave 9: comparison functions follow the comparison operators (a number without a unit is a pure number; refused next to a dimensional Array).', 'C14': 'Wave 9: sink unit-line entries with a numeric factor in front.', 'C15': 'Wave 9: loads that find nothing for a requested group; requested groups are read off the call, not off what the library returns.', 'C17': 'Wave 9: every holder of a Vector observes in-place updates, value and unit (identity of the Vector object is not required).', 'C19': 'Wave 9: rendered lattice (plot=True): the colour limits that reach matplotlib, per rendering mode.'}
@@ -359,6 +360,8 @@ def main():
             note = note + " " + WAVE10[pid]
         if pid in WAVE11:
             note = note + " " + WAVE11[pid]
+        if pid in WAVE12:
+            note = note + " " + WAVE12[pid]
         checks.append(
             {
                 "property_id": pid,
